@@ -126,18 +126,18 @@ fn read_file_to_string(s: &str) -> IO<String> {
 fn read_file(file: &GluonFile, count: usize) -> IO<RuntimeResult<Option<Vec<u8>>, String>> {
     let mut file = file.0.lock().unwrap();
     let file = unwrap_file!(file);
-    let mut buffer = Vec::with_capacity(count);
+    // `count` comes from the program: a read may return fewer bytes than were asked for so there is
+    // no need to (try to) allocate more than a reasonable chunk for it
+    const MAX_CHUNK: usize = 1 << 20;
+    let mut buffer = vec![0; count.min(MAX_CHUNK)];
 
-    unsafe {
-        buffer.set_len(count);
-        match file.read(&mut *buffer) {
-            Ok(bytes_read) if bytes_read == 0 => IO::Value(RuntimeResult::Return(None)),
-            Ok(bytes_read) => {
-                buffer.truncate(bytes_read);
-                IO::Value(RuntimeResult::Return(Some(buffer)))
-            }
-            Err(err) => IO::Exception(format!("{}", err)),
+    match file.read(&mut *buffer) {
+        Ok(bytes_read) if bytes_read == 0 => IO::Value(RuntimeResult::Return(None)),
+        Ok(bytes_read) => {
+            buffer.truncate(bytes_read);
+            IO::Value(RuntimeResult::Return(Some(buffer)))
         }
+        Err(err) => IO::Exception(format!("{}", err)),
     }
 }
 
